@@ -465,3 +465,41 @@ def _int_text_eq(sx, text, v):
     from harness.common import int_literal
     lit, val = int_literal(sx, text)
     return sx.And(lit, sx.eq(val, v))
+
+
+@harness('C02', params=[c for c in CONFIGS if not c[2] and c[0] != 'msgpack'], label=LABEL, functions=FUNCS,
+         bounds={'shapes': 'object argument with no members set ({}), nested object with no members, empty arrays, '
+                           'argument container with only the scalar set'})
+def empty_containers(sx, cfg):
+    """empty containers are values, not absences: an object with no members is delivered as an instance of
+    its class, an empty array as an empty (or absent) array, and the other arguments are unaffected"""
+    pname, wrappers, as_list, validator = cfg
+    app, server = get(*cfg)
+    a = sx.int('a', -99, 99)
+    shape = sx.choose('shape', ['empty-object', 'empty-inner', 'empty-arrays', 'only-scalar'])
+    w = (lambda t, b: {t: b}) if wrappers else (lambda t, b: b)
+    if shape == 'empty-object':
+        body = {'a': a, 'o': w('Obj', {})}
+    elif shape == 'empty-inner':
+        body = {'a': a, 'o': w('Obj', {'n': 1, 'inner': w('Inner', {})})}
+    elif shape == 'empty-arrays':
+        body = {'a': a, 'o': w('Obj', {'n': 1, 'arr': [], 'objs': []})}
+    else:
+        body = {'a': a}
+    ctx = deliver(sx, pname, app, server, {'f': body})
+    got = ctx.in_object
+    if got is None or len(got) != 3:
+        return False
+    ok = [_leaf_eq(sx, 'int', got[0], a), got[1] is None]
+    o = got[2]
+    if shape == 'only-scalar':
+        ok.append(o is None)
+    else:
+        ok.append(type(o).__name__ == 'Obj')
+        if shape == 'empty-object':
+            ok.append(o is not None and o.n is None and o.inner is None)
+        elif shape == 'empty-inner':
+            ok.append(o is not None and o.n == 1 and type(o.inner).__name__ == 'Inner' and o.inner.v is None)
+        else:
+            ok.append(o is not None and o.n == 1 and o.arr in (None, []) and o.objs in (None, []))
+    return sx.And(*ok)
